@@ -1,3 +1,103 @@
+// C18: morphism_toposort on all small multigraphs x all new/old splits (bounded only).
 use crate::common::*;
-pub fn replay(_seq: &str) -> Result<(), (usize, String)> { Err((0, "ts: not built".into())) }
-pub fn sweep(_thorough: bool) -> Report { Report::new() }
+use crate::toposort::{morphism_toposort, MorphismWithSignature};
+use crate::{PrefixTree1, PrefixTree2};
+
+/// a case: n objects 0..n, morphism i has id 10+i, dom[i]/cod[i] in {None, Some(obj)}; split bit per table entry
+#[derive(Clone, Debug)]
+pub struct Case { pub n: u32, pub dom: Vec<Option<u32>>, pub cod: Vec<Option<u32>>, pub split: u64 }
+
+fn fmt_case(c: &Case) -> String {
+    let f = |v: &Vec<Option<u32>>| v.iter().map(|x| x.map(|y| y.to_string()).unwrap_or("-".into())).collect::<Vec<_>>().join(",");
+    format!("ts:{}|{}|{}|{}", c.n, f(&c.dom), f(&c.cod), c.split)
+}
+fn parse_case(s: &str) -> Case {
+    let p: Vec<&str> = s.split('|').collect();
+    let f = |x: &str| -> Vec<Option<u32>> { if x.is_empty() { vec![] } else { x.split(',').map(|y| if y == "-" { None } else { Some(y.parse().unwrap()) }).collect() } };
+    Case { n: p[0].parse().unwrap(), dom: f(p[1]), cod: f(p[2]), split: p[3].parse().unwrap() }
+}
+
+fn entries(c: &Case) -> usize { c.n as usize + c.dom.iter().filter(|x| x.is_some()).count() + c.cod.iter().filter(|x| x.is_some()).count() }
+
+fn has_cycle(c: &Case) -> bool {
+    // DFS over objects along fully defined morphisms
+    let n = c.n as usize;
+    let mut adj = vec![vec![]; n];
+    for i in 0..c.dom.len() { if let (Some(d), Some(k)) = (c.dom[i], c.cod[i]) { adj[d as usize].push(k as usize); } }
+    fn dfs(v: usize, adj: &Vec<Vec<usize>>, st: &mut Vec<u8>) -> bool { st[v] = 1; for &w in &adj[v] { if st[w] == 1 || (st[w] == 0 && dfs(w, adj, st)) { return true; } } st[v] = 2; false }
+    let mut st = vec![0u8; n];
+    for v in 0..n { if st[v] == 0 && dfs(v, &adj, &mut st) { return true; } }
+    false
+}
+
+/// Ok(sorted multiset of (morph, dom, cod)) or Err
+fn run(c: &Case) -> Result<Result<Vec<(u32, u32, u32)>, ()>, String> {
+    let (mut dn, mut do_, mut cn, mut co, mut on, mut oo) = (PrefixTree2::new(), PrefixTree2::new(), PrefixTree2::new(), PrefixTree2::new(), PrefixTree1::new(), PrefixTree1::new());
+    let mut bit = 0;
+    let mut is_new = |b: &mut usize| { let r = c.split >> *b & 1 == 1; *b += 1; r };
+    for o in 0..c.n { if is_new(&mut bit) { on.insert([o]); } else { oo.insert([o]); } }
+    for (i, d) in c.dom.iter().enumerate() { if let Some(d) = d { if is_new(&mut bit) { dn.insert([*d, 10 + i as u32]); } else { do_.insert([*d, 10 + i as u32]); } } }
+    for (i, k) in c.cod.iter().enumerate() { if let Some(k) = k { if is_new(&mut bit) { cn.insert([10 + i as u32, *k]); } else { co.insert([10 + i as u32, *k]); } } }
+    let res = catch(|| morphism_toposort(&dn, &do_, &cn, &co, &oo, &on)).map_err(|p| format!("morphism_toposort: panic: {} -- panic", p))?;
+    let cyc = has_cycle(c);
+    match res {
+        Err(_) => { if !cyc { return Err("morphism_toposort: reports a cycle but the fully defined morphisms are acyclic -- spurious-cycle".into()); } Ok(Err(())) }
+        Ok(list) => {
+            if cyc { return Err("morphism_toposort: returns Ok although the fully defined morphisms contain a directed cycle -- missed-cycle".into()); }
+            let mut want: Vec<(u32, u32, u32)> = (0..c.dom.len()).filter_map(|i| match (c.dom[i], c.cod[i]) { (Some(d), Some(k)) => Some((10 + i as u32, d, k)), _ => None }).collect();
+            let mut got: Vec<(u32, u32, u32)> = list.iter().map(|m| (m.morph, m.dom, m.cod)).collect();
+            for (i, f) in list.iter().enumerate() { for (j, g) in list.iter().enumerate() {
+                if f.cod == g.dom && i >= j { return Err(format!("morphism_toposort: morphism {} into object {} does not precede morphism {} out of it -- order", f.morph, f.cod, g.morph)); }
+            } }
+            want.sort(); got.sort();
+            if got != want { return Err(format!("morphism_toposort: returned {:?} but the fully defined morphisms are {:?} -- contents", got, want)); }
+            Ok(Ok(got))
+        }
+    }
+}
+
+pub fn replay(seq: &str) -> Result<(), (usize, String)> {
+    let c = parse_case(seq);
+    let base = run(&Case { split: 0, ..c.clone() }).map_err(|e| (0, e))?;
+    let r = run(&c).map_err(|e| (0, e))?;
+    if r != base { return Err((0, "morphism_toposort: result depends on the new/old split -- split".into())); }
+    Ok(())
+}
+
+pub fn sweep(thorough: bool) -> Report {
+    let mut rep = Report::new();
+    let max_n = 3u32;
+    let max_m = if thorough { 4 } else { 3 };
+    let mut rng = Rng::new(12345);
+    for n in 0..=max_n { for m in 0..=max_m {
+        let choices = n + 1;   // None or one of n objects
+        let total = (choices as u64).pow(2 * m as u32);
+        for code in 0..total {
+            let mut x = code; let mut dom = vec![]; let mut cod = vec![];
+            for _ in 0..m { let d = (x % choices as u64) as u32; x /= choices as u64; let k = (x % choices as u64) as u32; x /= choices as u64;
+                dom.push(if d == 0 { None } else { Some(d - 1) }); cod.push(if k == 0 { None } else { Some(k - 1) }); }
+            let mut c = Case { n, dom, cod, split: 0 };
+            let e = entries(&c);
+            let base = match run(&c) { Ok(b) => Some(b), Err(msg) => { rep.fail(fmt_case(&c), 0, msg); None } };
+            rep.evaluations += 1;
+            let defined = (0..m as usize).filter(|&i| c.dom[i].is_some() && c.cod[i].is_some()).count();
+            if defined >= 2 { rep.nontrivial_count += 1; }
+            let all_splits = m <= 3;
+            let splits: Vec<u64> = if all_splits { (1..(1u64 << e)).collect() } else { let mut v = vec![(1u64 << e) - 1]; for _ in 0..6 { v.push(rng.below(1u64 << e)); } v };
+            for s in splits {
+                c.split = s;
+                rep.evaluations += 1;
+                if defined >= 2 { rep.nontrivial_count += 1; }
+                match run(&c) {
+                    Err(msg) => rep.fail(fmt_case(&c), 0, msg),
+                    Ok(r) => if let Some(b) = &base { if &r != b { rep.fail(fmt_case(&c), 0, "morphism_toposort: Ok/Err or the set of returned morphisms depends on the new/old split -- split".into()); } }
+                }
+            }
+            if rep.samples.len() < 3 && defined >= 2 && code % 97 == 5 { rep.samples.push(fmt_case(&c)); }
+        }
+    } }
+    rep.exhaustive = !thorough;
+    rep.bound = format!("all multigraphs with <= {} objects and <= {} morphisms (each with dom/cod undefined or any object) x {} new/old splits of the three tables",
+        max_n, max_m, if thorough { "all splits for <= 3 morphisms, all-old/all-new/6 seeded splits for 4 morphisms" } else { "all" });
+    rep
+}
